@@ -67,6 +67,35 @@ pub fn corpus() -> Vec<(String, Case)> {
         cfg.service = service.into();
         out.push((name.to_string(), Case { wire: WireReq::from_wire(&build(&p).wire), cfg, prov: ProvSpec::standard() }));
     }
+    // large bodies of equal length and different content, validated one after the other (their buffers are freed
+    // and very likely handed out again at the same address): what a buffer held before says nothing about it now
+    for len in [1023usize, 1024, 8192, 200_000] {
+        let mut first_sig: Option<String> = None;
+        for (tag, fill) in [("A", 0x41u8), ("B", 0x42u8)] {
+            let mut p = e2e::base_plan(Carrier::Header);
+            p.method = "POST".into();
+            p.body = (0..len).map(|i| fill.wrapping_add((i % 23) as u8)).collect();
+            p.headers.push(("Content-Type".into(), b"application/octet-stream".to_vec()));
+            p.signed.push("content-type".into());
+            let built = build(&p);
+            let w = WireReq::from_wire(&built.wire);
+            if tag == "B" {
+                // B's body under A's signature: refused on its own, and after A as well
+                if let Some(sig_a) = &first_sig {
+                    let mut forged = w.clone();
+                    for h in forged.headers.iter_mut() {
+                        if h.0.eq_ignore_ascii_case("authorization") {
+                            h.1 = String::from_utf8_lossy(&h.1).replace(built.signed.signature.as_str(), sig_a).into_bytes();
+                        }
+                    }
+                    out.push((format!("body{}:B-under-A's-signature", len), Case { wire: forged, cfg: Cfg::basic(now), prov: ProvSpec::standard() }));
+                }
+            } else {
+                first_sig = Some(built.signed.signature.clone());
+            }
+            out.push((format!("body{}:{}", len, tag), Case { wire: w, cfg: Cfg::basic(now), prov: ProvSpec::standard() }));
+        }
+    }
     // refusals that stop half-way through an element (whatever partial work they did must leave no trace)
     for (name, path, query, body) in [
         ("poison:query-value-tail", "/", Some("Action=ListUsers%zz&b=2"), None),
@@ -767,7 +796,7 @@ pub fn run(ctx: &Ctx) -> Report {
     Report {
         stats: st,
         rule: format!(
-            "corpus of {} requests (one per stage of the documented order on each carrier, valid, wrong signature, with and without a session token; folded form, S3 + token, same credential under three tokens, five refusals that stop half-way through an element, six requests under server clocks 10 minutes apart incl. the edges of each window, two other server configurations); outcome = Ok payload digest (returned parts, body, principal) or error kind; fresh-state outcome of each element = its outcome when validated first in a fresh process. (1) every sequence of 1..{} validations in one process: each step equals its fresh-state outcome; (2) joint iteration orders of the crate's query and header maps exhausted (projection on <= 4 keys each) with identical canonical bytes and outcome, incl. the prefix rule whose error is raised inside a map iteration; (3) one fresh process per corpus element validated first{}; (4a) real threads under a controlled scheduler whose scheduling points are the crate's own log records and every provider event: 6 two-thread pairs ({}), 3 threads at preemption bound {}{}; (4b) 2-3 validation futures multiplexed on one thread with every order of polls (pending body / readiness / key future); built-in canaries (shared scratch buffer) must be caught by 4a and 4b on every run; plus a free-running barrier pass (sampling, supplementary). states = distinct outcomes / outcome vectors",
+            "corpus of {} requests (one per stage of the documented order on each carrier, valid, wrong signature, with and without a session token; folded form, S3 + token, same credential under three tokens, five refusals that stop half-way through an element, six requests under server clocks 10 minutes apart incl. the edges of each window, two other server configurations, pairs of equally long bodies of 1023 .. 200 000 bytes with different content and one body under the other's signature); outcome = Ok payload digest (returned parts, body, principal) or error kind; fresh-state outcome of each element = its outcome when validated first in a fresh process. (1) every sequence of 1..{} validations in one process: each step equals its fresh-state outcome; (2) joint iteration orders of the crate's query and header maps exhausted (projection on <= 4 keys each) with identical canonical bytes and outcome, incl. the prefix rule whose error is raised inside a map iteration; (3) one fresh process per corpus element validated first{}; (4a) real threads under a controlled scheduler whose scheduling points are the crate's own log records and every provider event: 6 two-thread pairs ({}), 3 threads at preemption bound {}{}; (4b) 2-3 validation futures multiplexed on one thread with every order of polls (pending body / readiness / key future); built-in canaries (shared scratch buffer) must be caught by 4a and 4b on every run; plus a free-running barrier pass (sampling, supplementary). states = distinct outcomes / outcome vectors",
             n, l, if thorough { " (4 rounds)" } else { "" }, if thorough { "all interleavings" } else { "all schedules with <= 3 preemptions" }, if thorough { 3 } else { 2 }, if thorough { ", 4 threads at bound 2" } else { "" }
         ),
         bounds: json!({"corpus": n, "history_length": l}),
